@@ -4,40 +4,65 @@ PROP = {
                   "circuitMap over a real bbolt backend, restart forks after every durable write, write-failure "
                   "injection through a kvdb.Backend wrapper, porcupine linearizability check of concurrent histories "
                   "under -race; switch-level reference-model monitor: a real Switch (circuit map + resolution-message store "
-                  "+ mailboxes) on a persistent DB with mock links, restarted in place at arbitrary points"),
+                  "+ mailboxes) on a persistent DB with mock links, restarted in place at arbitrary points, and booted "
+                  "afresh from a DB image taken behind every committed write transaction of an operation (crash points "
+                  "inside a switch operation, through a kvdb.Backend wrapper)"),
     "level_text": ("PRNG op sequences (commit batches with duplicates, open, trim, close, fail, delete, channel "
                    "advance/close, restart) over 3 channels x 4 HTLC ids; every return value and every lookup compared "
                    "with a sequential model; after every op that wrote to disk the bbolt file is copied and a fresh "
                    "circuit map on the copy must equal the model's restart image (NextLocalHtlcIndex is read from real "
                    "channels advanced with AddHTLC+SignNextCommitment); every write transaction of an op can be failed. "
                    "Concurrent 3-goroutine histories are checked for linearizability per circuit. "
-                   "Switch unit: PRNG op sequences over 1-3 forwarded HTLCs (one incoming, two outgoing channels) on a real "
-                   "Switch: forwards and duplicate re-forwards, outgoing link receive / OpenCircuits / commit / local FailAdd, "
-                   "off-chain responses, outgoing channel on chain + ProcessContractResolution (settle|fail, duplicates, "
-                   "competing off-chain response), channel fully closed, incoming link receive / lock-in (DeleteCircuits + "
-                   "AckPacket, or only the first half) / flap, Switch Stop+New+Start on the same DB; adds handed per HTLC, every "
-                   "response reaching the incoming link and the restarted switch's circuits are compared with a model of "
-                   "(circuit, keystone committed?, resolution stored?, locked in?, outgoing channel status)."),
+                   "Switch unit: PRNG op sequences over 1-3 forwarded HTLCs (two incoming, two outgoing channels) on a real "
+                   "Switch: forwards, batch forwards (one CommitCircuits transaction) and duplicate re-forwards, a batch "
+                   "hand-over interrupted by the incoming link's quit channel at a chosen position (forwarder goroutine parked "
+                   "deterministically; fresh adds and replays mixed) followed by replays, outgoing link receive / OpenCircuits / "
+                   "commit / local FailAdd, off-chain responses, outgoing channel on chain + ProcessContractResolution "
+                   "(settle|fail, duplicates, competing off-chain response), outgoing channel fully closed, incoming channel on "
+                   "chain (close pending) and fully closed while the switch runs, incoming link receive / lock-in "
+                   "(DeleteCircuits + AckPacket, or only the first half) / flap, Switch Stop+New+Start on the same DB; adds "
+                   "handed per HTLC, every response reaching the incoming links and the restarted switch's circuits are "
+                   "compared with a model of (circuit, keystone committed?, resolution stored?, locked in?, status of the "
+                   "incoming and the outgoing channel). In half of the cases every operation runs under a capture of the DB "
+                   "wrapper: the bbolt file is copied right after EVERY committed write transaction (write transactions "
+                   "serialised meanwhile) together with the outputs produced until the next one begins (adds handed over, "
+                   "resolution messages acknowledged); a fresh Switch is booted from every image (all images of operations "
+                   "that change durable state; 1 in 8 of the images of a start that changes nothing), its circuits must be the "
+                   "restart image of the model's durable state before or after the operation (the last image: after), then "
+                   "the links start, the outgoing links re-forward un-acked responses, the incoming links replay un-acked "
+                   "adds: hand-overs before the crash instant + after it <= 1 per HTLC, <= 1 legitimate response per HTLC and "
+                   "none after a lock-in, a replayed add is never lost, a durably handed (or already acknowledged) resolution "
+                   "is re-delivered."),
     "level_note": ("Sampled sequences, not all; crash points are transaction boundaries (every circuit-map write is one "
-                   "kvdb transaction); at-most-once on the wire between real links is C08's monitor. The switch unit stops "
-                   "the switch gracefully between operations (no crash inside a switch operation), has no real channels in "
-                   "its DB (keystones are trimmed by the outgoing link's start as channelLink.Start does, off-chain responses "
-                   "are re-forwarded by the mock link, not from forwarding packages) and never closes the incoming channel."),
+                   "kvdb transaction; bbolt commits are atomic, torn pages are not modelled); at-most-once on the wire between "
+                   "real links is C08's monitor. Switch unit: crash images are judged in throw-away forks (the case itself "
+                   "continues from the completed operation, in-place restarts are graceful); outputs between two commits are "
+                   "sampled when the next write transaction begins (after a few scheduler yields), so an output racing with "
+                   "that instant may be attributed to the later image (only makes the oracle more permissive); it has no real "
+                   "channels in its DB (keystones are trimmed by the outgoing link's start as channelLink.Start does, off-chain "
+                   "responses are re-forwarded by the mock link, not from forwarding packages); a fully closed incoming channel "
+                   "together with a stored, not yet locked-in resolution is not judged (nowhere to deliver to); a running "
+                   "switch has no purge path for a closed incoming channel (RemoveLink only), the purge is judged at the next "
+                   "start and in every crash image."),
     "design_ref": "DESIGN.md §3 C07",
     "rule": ("A sequence is non-trivial when at least one restart (fork or in place) was compared; distinct = distinct "
              "sets of exhibited behaviours (dup dropped with keystone / in memory, dup failed back after restart, "
-             "keystone trimmed at restart, purge, kept by resolution, second response rejected, write failure per op "
-             "kind, ...). Concurrent unit: distinct (initial state, op multiset) signatures of linearizable histories."),
+             "keystone trimmed at restart, purge, purge by closed incoming channel, kept by resolution, second response "
+             "rejected, interrupted batch, crash fork inside an operation, write failure per op kind, ...). Concurrent unit: distinct (initial state, op multiset) signatures of linearizable histories."),
     "assumptions": [
         "caller contract of the circuit map: outgoing HTLC ids of a channel are assigned in order (restarts/trims are "
         "judged only when the uncommitted keystones of a channel are contiguous), a keystone is only written for a "
         "half-open circuit, one goroutine owns CommitCircuits/DeleteCircuits of an incoming key",
         "FetchClosedChannels/CheckResolutionMsg are answered from the case; FetchAllOpenChannels returns real channels",
-        "a pending on-chain resolution is never combined with a fully closed *incoming* channel (statement ambiguous)",
+        "a pending on-chain resolution combined with a fully closed *incoming* channel is not judged (statement "
+        "ambiguous; seq unit: never generated, switch unit: generated, skipped by the oracle and counted)",
         "switch unit: the contract court sends a resolution message only for an outgoing HTLC that reached a commitment, "
         "always the same message for one HTLC; the incoming link forwards an add at most once per link epoch and never "
         "after it committed a response; a response counts as locked in once the link deleted the circuit and acked the "
-        "packet (channelLink.ackDownStreamPackets) - until then a re-delivery after a link or switch restart is expected",
+        "packet (channelLink.ackDownStreamPackets) - until then a re-delivery after a link or switch restart is expected; "
+        "after a crash the incoming link replays exactly the adds whose response it has not committed, the outgoing link "
+        "re-forwards the off-chain responses the incoming side has not committed; the contract court re-sends a resolution "
+        "message that was not acknowledged, never one that was",
     ],
     "race_anchors": ["htlcswitch/circuit_map.go", "htlcswitch/circuit.go"],
     "eval_counter": "ops",
@@ -71,20 +96,32 @@ PROP = {
         "files": ["htlcswitch/c07_test.go", "htlcswitch/c07sw_test.go", "htlcswitch/c07swcrash_test.go"],
         "shards": {"quick": 8, "thorough": 16},
         "watchdog": {"quick": 900, "thorough": 5400},
-        "floors": {"quick": {"sw_ops": 60000, "sw_restarts": 7500, "sw_restart_state_evals": 7500, "sw_forwards": 6000,
-                             "sw_response_evals": 4700, "sw_resolutions": 1600, "sw_awaiting_resolution_evals": 650,
-                             "sw_resolution_redelivered_after_restart": 650,
-                             "sw_resolution_redelivered_after_full_close": 500, "sw_kept_by_resolution": 450,
-                             "sw_purged_closed_circuits": 50, "sw_failed_back_after_restart": 2000,
-                             "sw_dup_dropped": 1400, "sw_lock_ins": 1300, "sw_second_response_dropped": 600,
-                             "sw_trimmed_keystones": 270},
-                   "thorough": {"sw_ops": 2400000, "sw_restarts": 300000, "sw_restart_state_evals": 300000,
-                                "sw_forwards": 240000, "sw_response_evals": 190000, "sw_resolutions": 64000,
-                                "sw_awaiting_resolution_evals": 26000,
-                                "sw_resolution_redelivered_after_restart": 26000,
-                                "sw_resolution_redelivered_after_full_close": 20000, "sw_kept_by_resolution": 18000,
-                                "sw_purged_closed_circuits": 2000, "sw_failed_back_after_restart": 80000,
-                                "sw_dup_dropped": 56000, "sw_lock_ins": 52000, "sw_second_response_dropped": 24000,
-                                "sw_trimmed_keystones": 10000}},
+        "floors": {"quick": {"sw_ops": 70000, "sw_restarts": 8000, "sw_restart_state_evals": 8000, "sw_forwards": 5900,
+                              "sw_response_evals": 3300, "sw_resolutions": 1700, "sw_awaiting_resolution_evals": 390,
+                              "sw_resolution_redelivered_after_restart": 390,
+                              "sw_resolution_redelivered_after_full_close": 320, "sw_kept_by_resolution": 360,
+                              "sw_purged_closed_circuits": 45, "sw_failed_back_after_restart": 1400,
+                              "sw_dup_dropped": 1250, "sw_lock_ins": 950, "sw_second_response_dropped": 700,
+                              "sw_trimmed_keystones": 250, "sw_purged_incoming_closed_circuits": 590,
+                              "sw_kept_incoming_close_pending": 470, "sw_incoming_fully_closed": 480,
+                              "sw_batch_forwards": 470, "sw_interrupted_batches": 500,
+                              "sw_interrupted_batches_with_replays": 70, "swc_forks": 5600, "swc_forks_mid_op": 1400,
+                              "swc_restart_state_evals": 12000, "swc_forward_evals": 12500, "swc_response_evals": 5000,
+                              "swc_failed_back_evals": 5800, "swc_awaiting_resolution_evals": 700,
+                              "swc_image0_evals": 35000, "swc_handed_after_crash": 390, "swc_transient_state_seen": 270},
+                   "thorough": {"sw_ops": 2800000, "sw_restarts": 320000, "sw_restart_state_evals": 320000,
+                                 "sw_forwards": 236000, "sw_response_evals": 132000, "sw_resolutions": 68000,
+                                 "sw_awaiting_resolution_evals": 15600, "sw_resolution_redelivered_after_restart": 15600,
+                                 "sw_resolution_redelivered_after_full_close": 12800, "sw_kept_by_resolution": 14400,
+                                 "sw_purged_closed_circuits": 1800, "sw_failed_back_after_restart": 56000,
+                                 "sw_dup_dropped": 50000, "sw_lock_ins": 38000, "sw_second_response_dropped": 28000,
+                                 "sw_trimmed_keystones": 10000, "sw_purged_incoming_closed_circuits": 23600,
+                                 "sw_kept_incoming_close_pending": 18800, "sw_incoming_fully_closed": 19200,
+                                 "sw_batch_forwards": 18800, "sw_interrupted_batches": 20000,
+                                 "sw_interrupted_batches_with_replays": 2800, "swc_forks": 224000,
+                                 "swc_forks_mid_op": 56000, "swc_restart_state_evals": 480000, "swc_forward_evals": 500000,
+                                 "swc_response_evals": 200000, "swc_failed_back_evals": 232000,
+                                 "swc_awaiting_resolution_evals": 28000, "swc_image0_evals": 1400000,
+                                 "swc_handed_after_crash": 15600, "swc_transient_state_seen": 10800}},
     }],
 }
